@@ -375,7 +375,13 @@ func c03Natural(rep *Report, worlds []*World, full bool) {
 	var probes []TransferSpec
 	fwds := []Fwd{w0.FwdCCTP(0), w0.FwdCCTPCaller(1), w0.FwdCCTP(2), w0.FwdHyp(1), w0.FwdHyp(3), w0.FwdInternal(w0.Bob), w0.FwdInternal(w0.Dust),
 		{Kind: "hyp", Domain: 1, Token: b32(77), Recipient: b32(5), GasLimit: "0", MaxFee: "0uusdc", Tag: "hyp(unknown-token)"},
-		{Kind: "cctp", Domain: 0, MintRecipient: make([]byte, 32), Tag: "cctp(zero-recipient)"}}
+		{Kind: "cctp", Domain: 0, MintRecipient: make([]byte, 32), Tag: "cctp(zero-recipient)"},
+		// degenerate optional attributes: a bridge that refuses them may be answered by a fallback inside the controller, and the
+		// fallback can fail in its turn (over the burn limit, burning paused, token factory paused)
+		{Kind: "cctp", Domain: 0, MintRecipient: b32(9), Caller: make([]byte, 32), Tag: "cctp(zero-caller)"},
+		{Kind: "cctp", Domain: 1, MintRecipient: make([]byte, 32), Caller: make([]byte, 32), Tag: "cctp(zero-recipient,zero-caller)"},
+		{Kind: "hyp", Domain: 1, Token: w0.TokenT0.Bytes(), Recipient: make([]byte, 32), GasLimit: "0", MaxFee: "0uusdc", Tag: "hyp(zero-recipient)"},
+		{Kind: "hyp", Domain: 3, Token: w0.TokenT0.Bytes(), Recipient: b32(5), Hook: make([]byte, 32), GasLimit: "0", MaxFee: "0uusdc", Tag: "hyp(no-router,zero-hook)"}}
 	for _, f := range fwds {
 		for _, fe := range w0.feeMenu() {
 			for _, a := range []string{"10000", fmt.Sprint(burnLimit + 1)} {
